@@ -220,6 +220,9 @@ func (env *SpecEnv) modItems(c *Clause) (items []locItem, err error) {
 		return nil, fmt.Errorf("%s:%d: %v", c.File, c.Line, perr)
 	}
 	for _, a := range x.Args[1:] {
+		if a.Kind == "id" && a.Name == "nothing" {
+			continue
+		}
 		if a.Kind == "call" && a.Args[0].Kind == "id" {
 			switch a.Args[0].Name {
 			case "elems":
